@@ -79,6 +79,17 @@ def make_dc(order, anns, checker, names=None, sub=False):
         return c
     A = st["np"].ndarray
     g = {"dataclasses": dataclasses}
+    if sub == "inherit":
+        # the fields (and the generated __init__) live in an UNDECORATED dataclass; the jaxtyped class only adds a method
+        lines = ["@dataclasses.dataclass", "class B:"]
+        for i in order:
+            g[f"A{i}"] = st["Float"][A, anns[i]]
+            lines.append(f"    {names[i]}: A{i}")
+        lines += ["class D(B):", "    def method(self):", "        return 1"]
+        exec("\n".join(lines) + "\n", g)
+        c = st["jaxtyped"](typechecker=st["checkers"][checker])(g["D"])
+        _fn_cache[key] = c
+        return c
     if sub:
         exec("@dataclasses.dataclass\nclass B:\n    pass\n", g)
         g["B"] = st["jaxtyped"](typechecker=st["checkers"][checker])(g["B"])
@@ -203,6 +214,11 @@ def run_call_variants(case, *, checkers=("typeguard", "beartype"), spellings=("n
             D = make_dc(list(range(n)), anns, ck, names, sub=True)
             v = classify(D, arrs, {}, "full")
             v["desc"] = f"{ck}/dataclass-subclass/pos"
+            v["level"] = "verdict"
+            variants.append(v)
+            D = make_dc(list(range(n)), anns, ck, names, sub="inherit")
+            v = classify(D, arrs, {}, "full")
+            v["desc"] = f"{ck}/dataclass-inherited-init/pos"
             v["level"] = "verdict"
             variants.append(v)
     if stack_switch:
